@@ -243,9 +243,14 @@ func (w *world) checkFaultConservation() {
 		}
 		dec, err := v.dec, v.err
 		if err != nil && len(v.last)%refformat.PageSize != 0 {
-			// A short extension write legitimately leaves a partial last page;
-			// nothing can have been recorded in it.
-			dec, err = refformat.Decode(v.last[:len(v.last)/refformat.PageSize*refformat.PageSize])
+			// A short extension write legitimately leaves a partial last page.
+			// A process that maps the file at that length records in it (the end
+			// of a page is never used by a record), so the page counts: it is
+			// read as if the missing bytes were zero.
+			padded := make([]byte, (len(v.last)/refformat.PageSize+1)*refformat.PageSize)
+			copy(padded, v.last)
+			dec, err = refformat.Decode(padded)
+			w.s.Probe("partial-last-page")
 		}
 		if err != nil {
 			w.fail("well-formed", "%s is damaged after a failed call: %v", filepath.Base(v.path), err)
